@@ -75,6 +75,7 @@ func generatedProxyPhase(r *rand.Rand) {
 		for i := 0; i < run.Pick(20, 100); i++ {
 			codes = append(codes, r.Uint32())
 		}
+		homes := map[[2]uint32]int{} // (hash type, code) -> endpoint index of the two-way call
 		for ci, code := range codes {
 			for _, ht := range []int{0, 1} {
 				name := []string{"modhash", "conhash"}[ht]
@@ -93,6 +94,7 @@ func generatedProxyPhase(r *rand.Rand) {
 					run.Inconclusive("generated proxy: the two-way call reached no scripted server")
 					continue
 				}
+				homes[[2]uint32{uint32(ht), code}] = home
 				for k := 0; k < 3; k++ {
 					tok1 := fmt.Sprintf("c14g-%d-%d-%d-one%d", round, ci, ht, k)
 					if err := proxy.NothingOneWayWithContext(mk(), map[string]string{vworld.TokenKey: tok1}); err != nil {
@@ -113,6 +115,43 @@ func generatedProxyPhase(r *rand.Rand) {
 						}
 						return
 					}
+				}
+			}
+		}
+		// call contexts derived from one base context that already carries client-side settings (an
+		// outer layer set a timeout): each call's own hash code routes it, whatever its siblings set
+		for _, ht := range []int{0, 1} {
+			name := []string{"modhash", "conhash"}[ht]
+			base := current.ContextWithClientCurrent(context.Background())
+			current.SetClientTimeout(base, 2500)
+			var ctxs []context.Context
+			var cs []uint32
+			for _, code := range codes {
+				if _, ok := homes[[2]uint32{uint32(ht), code}]; !ok {
+					continue
+				}
+				ctx := current.ContextWithClientCurrent(base)
+				current.SetClientHash(ctx, ht, code)
+				ctxs, cs = append(ctxs, ctx), append(cs, code)
+				if len(ctxs) == 12 {
+					break
+				}
+			}
+			for i := range ctxs {
+				tok := fmt.Sprintf("c14g-%d-derived-%d-%d", round, ht, i)
+				if err := proxy.NothingWithContext(ctxs[i], map[string]string{vworld.TokenKey: tok}); err != nil {
+					run.Inconclusive(fmt.Sprintf("generated proxy: call on a derived context failed: %v", err))
+					continue
+				}
+				got, home := where(tok, time.Second), homes[[2]uint32{uint32(ht), cs[i]}]
+				run.Eval(1)
+				if got >= 0 && got != home {
+					run.Violation("hash-code-in-context-not-followed", "generated-proxy:derived-contexts:"+name, fmt.Sprintf("%s code %d in a call context derived from a base context that %d sibling calls were derived from too: the call went to %s, the same code in a context of its own to %s", name, cs[i], len(ctxs)-1, eps[got].host, eps[home].host),
+						map[string]interface{}{"code": cs[i], "hash_type": name, "went_to": eps[got].host, "own_context_goes_to": eps[home].host, "sibling_codes": cs})
+					for _, e := range eps {
+						e.srv.Stop()
+					}
+					return
 				}
 			}
 		}
